@@ -180,8 +180,9 @@ def joinH : Handler := fun inp impl => do
   let sLines := sortDesc (want.flatMap (linesOf pfx))
   let spec := sLines == iLines
   let ps := pairsOf passing cat
+  let dLines := makeConfigLines keyDot (linesOf pfx) passing (catalogFn cat)
   let tag := if spec then (if dottedCollision ps then "dotted" else "plain")
-             else if dottedCollision ps then "dotted-key-collision" else "lines-mismatch"
+             else if dottedCollision ps && dLines == iLines then "dotted-key-collision" else "lines-mismatch"
   return ({ model := jLines mLines, agree := mLines == iLines, spec,
             nontrivial := decide (1 ≤ sLines.length) && want.length != cat.length, tag } : Verdict).toJson
 
@@ -216,8 +217,12 @@ def pipelineH : Handler := fun inp impl => do
     let mj := tableJson mt
     let agree := closeJson mj implTable
     let spec := closeJson (tableJson stb) implTable
+    -- class of a failure: does the table the *dotted* key would produce explain the implementation's table (D01)?
+    let dotted := match expectedTable env pfx cat (watchOnce keyDot (linesOf pfx) pfx st strict checks (catalogFn cat)) kv with
+      | .ok dt => closeJson (tableJson dt) implTable
+      | .error _ => false
     let tag := if spec then feature
-               else if dottedCollision ps then "dotted-key-collision" else "table-mismatch"
+               else if dottedCollision ps && dotted then "dotted-key-collision" else "table-mismatch"
     return ({ model := mj, agree, spec,
               nontrivial := !routed.isEmpty && (routed.length != adv.length || !kv.isEmpty), tag } : Verdict).toJson
   | a, _ =>
